@@ -299,3 +299,24 @@ def impl_bits(pname, x):
         return out
     except Exception as e:  # noqa
         return [f"F crash {type(e).__name__}"]
+
+
+def crash_site(mode, tname, cc, enc, data):
+    """re-run a decode that ended in an internal error; returns (exception class, innermost function in tpmstream)"""
+    import traceback
+    tp = resolve_type(tname)
+    kwargs = dict(tpm_type=tp, buffer=bytes(data), abort_on_error=(mode == "S"))
+    if cc is not None:
+        kwargs["command_code"] = TPM_CC(cc)
+    if enc:
+        kwargs["parameter_encryption"] = True
+    try:
+        for _ in Binary.marshal(**kwargs):
+            pass
+    except (ConstraintViolatedError, InputStreamBytesDepletedError, InputStreamSuperfluousBytesError):
+        return None
+    except Exception as e:  # noqa
+        frames = [f for f in traceback.extract_tb(e.__traceback__) if "tpmstream" in f.filename]
+        f = frames[-1] if frames else None
+        return type(e).__name__, (f.name if f else "?")
+    return None
